@@ -28,6 +28,14 @@
  * Families i and iii also run on "tcp + chunk source offering a scratch buffer
  * (getbuffer extension)": the frame then reaches the receiver in chunks of up
  * to 64 octets instead of octet by octet.
+ *
+ * The capacity of a block (how much of it the receiver keeps for itself is the
+ * library's business) is learned from the library's own answers
+ * (regp_ref.h: drv_learn_capacity): "fits" / "too large" are relative to it;
+ * block - sizeof(RPFrame) only places the enumerated windows.  The largest
+ * read a block serves and the buffer size its transmit-overflow responses
+ * carry are learned the same way (learn_read_limit) and must agree with each
+ * other.  Memory safety (ASan), hangs and the ledger do not depend on any of it.
  */
 #include "mc.h"
 #include "regp_ref.h"
@@ -158,6 +166,32 @@ use_slab(struct drv *d)
     d->alloc = (BlockAllocator)MAKE_SLAB_BLOCKALLOC(d, drv_slab_alloc, drv_free, d->blocksize);
 }
 
+/* ---- learned capacity ---------------------------------------------------------------- */
+/* the capacity the library shows for blocks of bsz octets (0: it receives no
+ * frame at all into such a block); false if its answers define none (serial:
+ * or if serial frames do not meet the same limit): the capacity clauses are
+ * then left out and the run is not exhaustive */
+static bool
+learned_capacity(size_t bsz, bool serial, size_t *cap)
+{
+    static bool capped, capped_far;
+    const size_t c = drv_learn_capacity(bsz);
+    *cap = 0;
+    if (c == DRV_CAP_UNKNOWN || (serial && !drv_capacity_serial_agrees(bsz))) {
+        if (!capped)
+            mc_cap("the library's answers define no capacity for some block sizes: capacity clauses left out there");
+        capped = true;
+        return false;
+    }
+    const size_t guess = bsz - sizeof(RPFrame);
+    if (c != 0 && (c > guess + 2 || c + 6 < guess) && !capped_far) {
+        mc_cap("learned capacity far from block - sizeof(RPFrame): the enumerated windows may not straddle it");
+        capped_far = true;
+    }
+    *cap = c;
+    return true;
+}
+
 /* ---- family i: frame lengths around the receive capacity ------------------------ */
 static void
 family_i(void)
@@ -168,17 +202,20 @@ family_i(void)
             for (int w16 = 0; w16 < 2; ++w16) {
                 const bool tcp = tv != 0;
                 const size_t bsz = blocksizes[bi];
-                const size_t cap = bsz - sizeof(RPFrame);
+                const size_t guess = bsz - sizeof(RPFrame); /* places the window; the oracle uses the learned capacity */
                 const size_t hdr = tcp ? 12 : 16;
                 for (size_t plen = 1;; ++plen) {
                     /* raw frame length L = hdr + payload */
                     const size_t L = hdr + plen;
-                    if (L > cap + 6 && plen > 4)
+                    if (L > guess + 6 && plen > 4)
                         break;
                     if (w16 && (plen & 1))
                         continue;
-                    if (!mc_case("i blocksize=%zu (capacity %zu) %s write%d frame-length=%zu", bsz, cap, TVN[tv], w16 ? 16 : 8, L))
+                    if (!mc_case("i blocksize=%zu (descriptor + %zu) %s write%d frame-length=%zu", bsz, guess, TVN[tv], w16 ? 16 : 8, L))
                         continue;
+                    size_t cap;
+                    const bool known = learned_capacity(bsz, !tcp, &cap);
+                    mc_log("learned capacity of blocks of %zu octets: %s%zu", bsz, known ? "" : "none; first guess ", known ? cap : guess);
                     const size_t n = build_request(raw, tcp, true, w16, 0x40, (uint32_t)(plen / (w16 ? 2 : 1)), plen, 0x0a0b);
                     const size_t wn = frame_wire(tcp, raw, n, wire);
                     drv_init_ex(&D, tcp, w16, bsz, tv_srcmode(tv));
@@ -190,7 +227,11 @@ family_i(void)
                     if (safety(&D, "frame around capacity")) {
                         struct rframe rp[8];
                         const int nr = replies(&D, tcp, rp, scratch);
-                        if (n <= cap) {
+                        if (!known) {
+                            outcome = "capacity-not-learned";
+                            if (nr < 0)
+                                mc_fail("C09/reply-well-formed", "the reply is not a sequence of valid frames");
+                        } else if (n <= cap) {
                             outcome = "fits-executed";
                             if (r.rrc[0] < 0 || r.errid[0] != 0 || D.ncalls != 1 || nr != 1 || rp[0].meta != 0)
                                 mc_fail("C09/frame-that-fits-is-served", "frame of %zu octets fits capacity %zu: rc=%d error.id=%d calls=%d replies=%d code=%u", n, cap,
@@ -240,18 +281,141 @@ static const struct hv {
     { false, RO_HDCRC | RO_PLCRC, 16, false, "serial+payload-crc-bit" },
 };
 
+/* What a block size shows about reads (one request header variant, one word
+ * size): the largest read it serves and the buffer size its transmit-overflow
+ * responses carry.  Learned by probing, like the capacity. */
+struct readlimit {
+    bool tried;
+    bool known;        /* maxserved: a read of that many units is served, one of one more is not */
+    uint32_t maxserved;
+    bool have_t;       /* tval: the value carried by the transmit-overflow response to maxserved + 1 units */
+    uint32_t tval;
+};
+
+static struct drv PR; /* the probing instance; its replies are captured here (large reads) */
+static unsigned char prbuf[1u << 18], prscratch[1u << 18];
+static size_t prlen;
+static bool prover;
+
+static ssize_t
+prsink_chunk(void *drv, const void *data, size_t n)
+{
+    (void)drv;
+    if (prlen + n > sizeof prbuf) {
+        prover = true;
+        return -EIO;
+    }
+    memcpy(prbuf + prlen, data, n);
+    prlen += n;
+    return (ssize_t)n;
+}
+
+/* 1: served (one read response, acknowledged, one memory access); 2: one
+ * transmit-overflow response with a four octet value (*val); 0: anything else */
+static int
+probe_read(bool tcp, int opts, bool w16, size_t bsz, uint32_t bs, uint32_t *val)
+{
+    unsigned char raw[64], wire[160];
+    g_opt_override = opts;
+    const size_t n = build_request(raw, tcp, false, w16, 0x1000, bs, 0, 0x0c0d);
+    g_opt_override = -1;
+    const size_t wn = tcp ? rr_lenprefix(wire, raw, n) : rr_slip(wire, raw, n);
+    struct drv *const saved = g_drv;
+    int res = 0;
+    drv_init(&PR, tcp, w16, bsz, !tcp);
+    {
+        Source src;
+        Sink snk;
+        if (tcp)
+            chunk_source_init(&src, drv_src_chunk, &PR);
+        else
+            octet_source_init(&src, drv_src_octet, &PR);
+        chunk_sink_init(&snk, prsink_chunk, &PR);
+        regp_use_channel(&PR.p, tcp ? RP_EP_TCP : RP_EP_SERIAL, src, snk);
+        prlen = 0;
+        prover = false;
+    }
+    drv_feed(&PR, wire, wn);
+    RPMaybeFrame mf;
+    memset(&mf, 0, sizeof mf);
+    const int rrc = regp_recv(&PR.p, &mf);
+    if (rrc >= 0)
+        (void)regp_process(&PR.p, &mf);
+    if (mf.frame != NULL)
+        regp_free(&PR.p, mf.frame);
+    if (!PR.overrun && !prover) {
+        struct rr_frames fr;
+        struct rframe f;
+        if (rr_unframe(tcp, prbuf, prlen, prscratch, &fr) == 1 && rr_reply_ok(rr_verdict(prscratch + fr.off[0], fr.len[0], &f), &f) && f.type == RT_READ_RESP) {
+            if (f.meta == 0 && PR.ncalls == 1)
+                res = 1;
+            else if (f.meta == 5 && f.plen == 4 && PR.ncalls == 0) {
+                *val = (uint32_t)f.payload[0] << 24 | (uint32_t)f.payload[1] << 16 | (uint32_t)f.payload[2] << 8 | f.payload[3];
+                res = 2;
+            }
+        }
+    }
+    drv_release(&PR);
+    g_drv = saved;
+    return res;
+}
+
+static void
+learn_read_limit(struct readlimit *rl, bool tcp, int opts, size_t hdr, bool w16, size_t bsz, size_t cap)
+{
+    if (rl->tried)
+        return;
+    memset(rl, 0, sizeof *rl);
+    rl->tried = true;
+    const size_t ws = w16 ? 2 : 1;
+    uint32_t v = 0;
+    /* the capture buffer of the probing instance bounds what can be observed */
+    if (bsz > sizeof prbuf / 2 - 64)
+        return;
+    /* first guess: what fits the learned capacity behind the request's header */
+    if (cap >= hdr) {
+        const uint32_t g = (uint32_t)((cap - hdr) / ws);
+        if (probe_read(tcp, opts, w16, bsz, g, &v) == 1 && probe_read(tcp, opts, w16, bsz, g + 1, &v) != 1) {
+            rl->known = true;
+            rl->maxserved = g;
+        }
+    }
+    if (!rl->known) {
+        uint32_t lo = 0, hi = (uint32_t)(bsz / ws) + 1; /* lo: served, hi: not served */
+        if (probe_read(tcp, opts, w16, bsz, lo, &v) != 1 || probe_read(tcp, opts, w16, bsz, hi, &v) == 1)
+            return;
+        while (hi - lo > 1) {
+            const uint32_t mid = lo + (hi - lo) / 2;
+            if (probe_read(tcp, opts, w16, bsz, mid, &v) == 1)
+                lo = mid;
+            else
+                hi = mid;
+        }
+        rl->known = true;
+        rl->maxserved = lo;
+    }
+    if (probe_read(tcp, opts, w16, bsz, rl->maxserved + 1, &v) == 2) {
+        rl->have_t = true;
+        rl->tval = v;
+    }
+}
+
 /* the oracle for one read request that was received into a block of bsz
- * octets (capacity cap) behind a header of hdr octets; returns the outcome class */
+ * octets; cap_known/cap: the learned capacity; rl: what the block size shows
+ * about reads (may be NULL); returns the outcome class */
 static const char *
-judge_read(int nr, const struct rframe *rp, int ncalls, uint32_t bs, size_t ws, size_t cap, size_t hdr, size_t bsz, bool standard)
+judge_read(int nr, const struct rframe *rp, int ncalls, uint32_t bs, size_t ws, bool cap_known, size_t cap, size_t bsz, bool standard, const struct readlimit *rl)
 {
     const char *outcome = "?";
     const uint64_t octets = (uint64_t)bs * ws;
-    /* the answer is a message with a header of its own (up to 16 octets): a read
-     * that fits with it must be served; one that does not even fit behind the
-     * request's header must be refused; in between either is right */
-    const bool fits_with_full_header = octets + 16 <= cap;
-    const bool fits_behind_request = octets + hdr <= cap;
+    /* The answer is a message with a header of its own (up to 16 octets): a read
+     * that fits the learned capacity with it must be served.  Which reads
+     * "cannot fit" is for the library to say, through the buffer size its
+     * transmit-overflow responses carry: it must not serve a read of more
+     * octets than that (and where it puts an answer that does not fit the
+     * block, ASan sees).  In between either is right. */
+    const bool fits_with_full_header = cap_known && octets + 16 <= cap;
+    const bool beyond_reported_size = rl != NULL && rl->have_t && octets > rl->tval;
     const bool is_read_resp = nr == 1 && rp[0].type == RT_READ_RESP && rp[0].seq == 0x0c0d && rp[0].addr == 0x1000;
     if (nr < 0)
         mc_fail("C09/reply-well-formed", "the reply to a read request is not a sequence of valid frames");
@@ -264,20 +428,27 @@ judge_read(int nr, const struct rframe *rp, int ncalls, uint32_t bs, size_t ws, 
             mc_fail("C09/refused-not-executed", "%d replies, none a read response, but %d memory accesses", nr, ncalls);
     } else if (rp[0].meta == 0) {
         outcome = standard ? "read-executed" : "read-variant-executed";
-        if (!fits_behind_request)
-            mc_fail("C09/tx-overflow-response", "a read of %u words (%llu octets) cannot fit capacity %zu behind a %zu-octet header but was acknowledged", bs,
-                    (unsigned long long)octets, cap, hdr);
+        if (beyond_reported_size)
+            mc_fail("C09/tx-overflow-response", "a read of %u units (%llu octets) was acknowledged although the transmit-overflow responses of this block size report a buffer size of %u octets", bs,
+                    (unsigned long long)octets, rl->tval);
         else if (ncalls != 1 || rp[0].plen != octets)
             mc_fail("C09/read-answered", "acknowledged read: calls=%d payload=%zu octets for %u words", ncalls, rp[0].plen, bs);
     } else if (rp[0].meta == 5) {
         outcome = "tx-overflow";
         const uint32_t val = rp[0].plen == 4 ? ((uint32_t)rp[0].payload[0] << 24 | (uint32_t)rp[0].payload[1] << 16 | (uint32_t)rp[0].payload[2] << 8 | rp[0].payload[3]) : 0;
         if (fits_with_full_header)
-            mc_fail("C09/read-that-fits-is-served", "a read of %u words fits capacity %zu together with a full response header but got a transmit-overflow response", bs, cap);
+            mc_fail("C09/read-that-fits-is-served", "a read of %u words fits the capacity of %zu octets (learned) together with a full response header but got a transmit-overflow response", bs, cap);
         else if (ncalls != 0)
             mc_fail("C09/tx-overflow-response", "transmit overflow reported after %d memory accesses", ncalls);
-        else if (rp[0].plen != 4 || (val != cap && val != bsz && val != cap - hdr))
-            mc_fail("C09/tx-overflow-response", "transmit-overflow response carries %zu octets, value %u; buffer size is %zu", rp[0].plen, val, cap);
+        /* the buffer size: not more than the block; not less than an answer the
+         * library serves from such a block; the same for every read it refuses */
+        else if (rp[0].plen != 4 || val > bsz)
+            mc_fail("C09/tx-overflow-response", "transmit-overflow response carries %zu octets, value %u; the block has %zu octets", rp[0].plen, val, bsz);
+        else if (rl != NULL && rl->known && (uint64_t)rl->maxserved * ws > val)
+            mc_fail("C09/tx-overflow-response", "transmit-overflow response reports a buffer size of %u octets, but a read of %u units (%llu octets) is served from such a block", val,
+                    rl->maxserved, (unsigned long long)rl->maxserved * ws);
+        else if (rl != NULL && rl->have_t && val != rl->tval)
+            mc_fail("C09/tx-overflow-response", "transmit-overflow response reports a buffer size of %u octets; the one to a read of %u units reported %u", val, rl->maxserved + 1, rl->tval);
     } else if (standard)
         mc_fail("C09/read-answered", "read answered with response code %u", rp[0].meta);
     else {
@@ -299,17 +470,24 @@ family_ii(void)
                 const struct hv *hv = &HV[hi];
                 const bool tcp = hv->tcp;
                 const size_t bsz = blocksizes[bi];
-                const size_t cap = bsz - sizeof(RPFrame);
+                const size_t guess = bsz - sizeof(RPFrame); /* places the window; the oracle uses the learned capacity */
                 const size_t hdr = hv->hdr;
-                if (cap < hdr)
+                if (guess < hdr)
                     continue; /* the request itself does not fit: family i */
                 const size_t ws = w16 ? 2 : 1;
-                const uint32_t nsmall = (uint32_t)((cap + 8) / ws) + 1;
+                const uint32_t nsmall = (uint32_t)((guess + 8) / ws) + 1;
+                static struct readlimit RL[16][sizeof HV / sizeof *HV][2];
+                struct readlimit *rl = &RL[bi][hi][w16];
                 for (uint32_t k = 0; k < nsmall + sizeof BIGSZ / sizeof *BIGSZ; ++k) {
                     /* every size up to capacity+8, then sizes whose octet count needs more than 31 / 32 bits */
                     const uint32_t bs = k < nsmall ? k : BIGSZ[k - nsmall];
-                    if (!mc_case("ii blocksize=%zu (capacity %zu) %s read%d block-size=%u", bsz, cap, hv->name, w16 ? 16 : 8, bs))
+                    if (!mc_case("ii blocksize=%zu (descriptor + %zu) %s read%d block-size=%u", bsz, guess, hv->name, w16 ? 16 : 8, bs))
                         continue;
+                    size_t cap;
+                    const bool known = learned_capacity(bsz, !tcp, &cap);
+                    learn_read_limit(rl, tcp, hv->opts, hdr, w16, bsz, known ? cap : guess);
+                    mc_log("learned: capacity %s%zu; largest read served %s%u units; buffer size reported %s%u", known ? "" : "none, first guess ", known ? cap : guess,
+                           rl->known ? "" : "unknown ", rl->maxserved, rl->have_t ? "" : "unknown ", rl->tval);
                     g_opt_override = hv->opts;
                     const size_t n = build_request(raw, tcp, false, w16, 0x1000, bs, 0, 0x0c0d);
                     g_opt_override = -1;
@@ -322,7 +500,13 @@ family_ii(void)
                     if (safety(&D, "read around the transmit limit")) {
                         struct rframe rp[8];
                         const int nr = replies(&D, tcp, rp, scratch);
-                        outcome = judge_read(nr, rp, D.ncalls, bs, ws, cap, hdr, bsz, hv->standard);
+                        if (known && n > cap) {
+                            /* the request itself does not fit the learned capacity: family i */
+                            outcome = "read-request-does-not-fit";
+                            if (D.ncalls != 0)
+                                mc_fail("C09/overflowing-frame-not-executed", "request of %zu octets exceeds the capacity of %zu octets (learned) but caused %d memory accesses", n, cap, D.ncalls);
+                        } else
+                            outcome = judge_read(nr, rp, D.ncalls, bs, ws, known, cap, bsz, hv->standard, rl);
                     }
                     drv_release(&D);
                     mc_end(true, mc.cur_failed ? "failed" : outcome);
@@ -441,6 +625,19 @@ check_stream(struct drv *d, bool tcp, const struct result *r, const char *what)
     (void)r;
 }
 
+/* "reported as bad header encoding": error.id set (the value is not fixed by
+ * the statement) or the header-encoding meta message among the replies */
+static bool
+short_frame_reported(int errid, int nr, const struct rframe *rp)
+{
+    if (errid != 0)
+        return true;
+    for (int i = 0; i < nr; ++i)
+        if (rp[i].type == RT_META && rp[i].meta == 1)
+            return true;
+    return false;
+}
+
 /* ---- family iv --------------------------------------------------------------------------- */
 static void
 family_iv(void)
@@ -532,11 +729,14 @@ family_iv(void)
                     unsigned char scratch[DRV_WIRE];
                     struct rframe rp[8];
                     const int nr = replies(&D, c->tcp, rp, scratch);
-                    /* reported as bad header encoding = error.id; the return value may say so too */
-                    if (r.errid[0] != EBADMSG || D.ncalls != 0)
-                        mc_fail("C09/short-frame-is-bad-header", "%s: rc=%d error.id=%d calls=%d (expected bad header encoding)", what, r.rrc[0], r.errid[0], D.ncalls);
-                    else if (nr != 1 || rp[0].type != RT_META || rp[0].meta != 1)
-                        mc_fail("C09/short-frame-is-bad-header", "%s: %d replies (expected the header-encoding meta message)", what, nr);
+                    /* reported as bad header encoding: to the caller (error.id set; which value the
+                     * statement does not say) or to the peer (the header-encoding meta message);
+                     * either channel will do.  The return value may say so too. */
+                    if (D.ncalls != 0)
+                        mc_fail("C09/short-frame-is-bad-header", "%s: rc=%d error.id=%d calls=%d (a frame shorter than a header was executed)", what, r.rrc[0], r.errid[0], D.ncalls);
+                    else if (!short_frame_reported(r.errid[0], nr, rp))
+                        mc_fail("C09/short-frame-is-bad-header", "%s: rc=%d error.id=0 and %d replies, none the header-encoding meta message (expected the frame to be reported as bad header encoding)",
+                                what, r.rrc[0], nr);
                 }
                 drv_release(&D);
             }
@@ -1078,35 +1278,31 @@ viii_judge(const struct scen *s, int tv, const struct vrun *v, const char *what)
     const bool tcp = tv != 0;
     mc_log("%s: recv rc=%d error.id=%d frame=%d process rc=%d calls=%d sink calls=%ld reply=%zu", what, v->rrc, v->errid, v->hadframe, v->prc, D.ncalls, X.calls, X.outlen);
     bool ok = safety_x(&D, what);
-    /* A sink that failed for good, or a library that reported failure: nothing
-     * is said about what was sent.  Otherwise the sink took, in the end, every
-     * octet it was offered and both calls reported success: a frame the
-     * statement says "is answered with" a certain response has been answered
-     * with it.  (Meta messages and the other replies may be best effort once
-     * the sink hesitates: their form is only demanded of the undisturbed
-     * exchange, like in the other families.) */
+    /* The statement quantifies over octet streams, block sizes and allocation
+     * failures, not over sink answers: the form of the reply is demanded of
+     * the exchange in which no sink answer deviated (and the sink took every
+     * octet).  An exchange the sink disturbed (retry request, short or
+     * zero-length write, hard error) gets memory safety, the hang clause and
+     * the ledger only: the library may send its own replies best effort. */
     const bool disturbed = X.nhit > 0;
     if (ok && !X.hard_hit && v->rrc >= 0 && v->prc >= 0) {
-        struct rframe rp[8];
-        const int nr = replies_buf(xbuf, X.outlen, tcp, rp, xscratch);
         g_answered++;
-        if (s->expect == EK_META_ENC && v->errid != EBADMSG) {
-            mc_fail("C09/short-frame-is-bad-header", "%s: error.id=%d (expected bad header encoding)", what, v->errid);
-            ok = false;
-        } else if (s->expect == EK_RXOVERFLOW || s->expect == EK_BUSY || s->expect == EK_TXOVERFLOW) {
-            const unsigned code = s->expect == EK_RXOVERFLOW ? 4 : s->expect == EK_BUSY ? 6 : 5;
-            if (nr != 1 || rp[0].type != s->rtype || rp[0].meta != code || rp[0].seq != VIII_SEQ || rp[0].addr != VIII_ADDR) {
-                mc_fail(s->expect == EK_RXOVERFLOW ? "C09/rx-overflow-response" : s->expect == EK_BUSY ? "C09/busy-response" : "C09/tx-overflow-response",
-                        "%s: receive and process reported success; %d replies, first type=%u code=%u seq=%04x addr=%x (expected one response with code %u echoing the request)", what, nr,
-                        nr > 0 ? rp[0].type : 99, nr > 0 ? rp[0].meta : 99, nr > 0 ? rp[0].seq : 0, nr > 0 ? rp[0].addr : 0, code);
-                ok = false;
-            }
-        } else if (!disturbed) {
-            if (nr < 0) {
+        if (!disturbed) {
+            struct rframe rp[8];
+            const int nr = replies_buf(xbuf, X.outlen, tcp, rp, xscratch);
+            if (s->expect == EK_RXOVERFLOW || s->expect == EK_BUSY || s->expect == EK_TXOVERFLOW) {
+                const unsigned code = s->expect == EK_RXOVERFLOW ? 4 : s->expect == EK_BUSY ? 6 : 5;
+                if (nr != 1 || rp[0].type != s->rtype || rp[0].meta != code || rp[0].seq != VIII_SEQ || rp[0].addr != VIII_ADDR) {
+                    mc_fail(s->expect == EK_RXOVERFLOW ? "C09/rx-overflow-response" : s->expect == EK_BUSY ? "C09/busy-response" : "C09/tx-overflow-response",
+                            "%s: receive and process reported success; %d replies, first type=%u code=%u seq=%04x addr=%x (expected one response with code %u echoing the request)", what, nr,
+                            nr > 0 ? rp[0].type : 99, nr > 0 ? rp[0].meta : 99, nr > 0 ? rp[0].seq : 0, nr > 0 ? rp[0].addr : 0, code);
+                    ok = false;
+                }
+            } else if (nr < 0) {
                 mc_fail("C09/reply-well-formed", "%s: the octets sent back are not a sequence of valid frames", what);
                 ok = false;
-            } else if (s->expect == EK_META_ENC && (nr != 1 || rp[0].type != RT_META || rp[0].meta != 1)) {
-                mc_fail("C09/short-frame-is-bad-header", "%s: %d replies (expected the header-encoding meta message)", what, nr);
+            } else if (s->expect == EK_META_ENC && !short_frame_reported(v->errid, nr, rp)) {
+                mc_fail("C09/short-frame-is-bad-header", "%s: error.id=0 and %d replies, none the header-encoding meta message (expected the frame to be reported as bad header encoding)", what, nr);
                 ok = false;
             }
         }
@@ -1296,10 +1492,21 @@ family_ix(void)
                     const size_t hdr = tcp ? 12 : 16;
                     if (w16 && ((L - hdr) & 1))
                         continue;
-                    if (!mc_case("ix blocksize=%zu (capacity %zu) %s write%d frame-length=%llu (generated stream)", F + (size_t)L + (size_t)slack, (size_t)L + (size_t)slack, TVN[tv],
+                    if (!mc_case("ix block with a capacity of %zu octets (learned) %s write%d frame-length=%llu (generated stream)", (size_t)L + (size_t)slack, TVN[tv],
                                  w16 ? 16 : 8, (unsigned long long)L))
                         continue;
-                    drv_init_ex(&D, tcp, w16, F + (size_t)L + (size_t)slack, tv_srcmode(tv));
+                    /* the block size whose capacity the library shows to be L + slack */
+                    const size_t fitted = drv_block_for_capacity((size_t)L + (size_t)slack, !tcp);
+                    mc_log("block size with a learned capacity of %zu octets: %zu", (size_t)L + (size_t)slack, fitted);
+                    if (fitted == 0) {
+                        static bool capped;
+                        if (!capped)
+                            mc_cap("no block size with a learned capacity of 2^16 -+ 1 (+1) octets: large fitting frames left out");
+                        capped = true;
+                        mc_end(false, "capacity-not-learned");
+                        continue;
+                    }
+                    drv_init_ex(&D, tcp, w16, fitted, tv_srcmode(tv));
                     const uint64_t plen = lazy_write_request(tcp, w16, L);
                     connect_x(&D, tcp, tv_srcmode(tv), true, false, -1, 0, -1, 0);
                     RPMaybeFrame mf;
@@ -1326,7 +1533,7 @@ family_ix(void)
     /* (c) reads of about 2^16 octets, and around the transmit limit, from a block that can hold them */
     {
         unsigned char raw[64], wire[160];
-        const size_t bsz = F + 16 + 65536 + 40, cap = bsz - F;
+        const size_t bsz = F + 16 + 65536 + 40, cap = bsz - F; /* cap: first guess, places the sizes; the oracle uses the learned capacity */
         for (unsigned hi = 0; hi < 2; ++hi)
             for (int w16 = 0; w16 < 2; ++w16) {
                 const struct hv *hv = &HV[hi];
@@ -1347,8 +1554,14 @@ family_ix(void)
                         dup |= list[j] == bs;
                     if (dup)
                         continue;
-                    if (!mc_case("ix blocksize=%zu (capacity %zu) %s read%d block-size=%u", bsz, cap, hv->name, w16 ? 16 : 8, bs))
+                    if (!mc_case("ix blocksize=%zu (descriptor + %zu) %s read%d block-size=%u", bsz, cap, hv->name, w16 ? 16 : 8, bs))
                         continue;
+                    static struct readlimit RLX[2][2];
+                    size_t lcap;
+                    const bool known = learned_capacity(bsz, !tcp, &lcap);
+                    learn_read_limit(&RLX[hi][w16], tcp, hv->opts, hv->hdr, w16, bsz, known ? lcap : cap);
+                    mc_log("learned: capacity %s%zu; largest read served %s%u units; buffer size reported %s%u", known ? "" : "none, first guess ", known ? lcap : cap,
+                           RLX[hi][w16].known ? "" : "unknown ", RLX[hi][w16].maxserved, RLX[hi][w16].have_t ? "" : "unknown ", RLX[hi][w16].tval);
                     const size_t n = build_request(raw, tcp, false, w16, 0x1000, bs, 0, 0x0c0d);
                     const size_t wn = frame_wire(tcp, raw, n, wire);
                     drv_init(&D, tcp, w16, bsz, !tcp);
@@ -1361,7 +1574,7 @@ family_ix(void)
                     if (safety_x(&D, "large read")) {
                         struct rframe rp[8];
                         const int nr = replies_buf(xbuf, X.outlen, tcp, rp, xscratch);
-                        outcome = judge_read(nr, rp, D.ncalls, bs, ws, cap, hv->hdr, bsz, true);
+                        outcome = judge_read(nr, rp, D.ncalls, bs, ws, known, lcap, bsz, true, &RLX[hi][w16]);
                     }
                     drv_release(&D);
                     mc_end(true, mc.cur_failed ? "failed" : !strcmp(outcome, "read-executed") ? "large-read-executed" : !strcmp(outcome, "tx-overflow") ? "large-read-tx-overflow" : outcome);
@@ -1395,7 +1608,7 @@ main(int argc, char **argv)
     family_vii();
     family_viii();
     family_ix();
-    mc_finish(true, g_th ? "block sizes {F+1,F+2,F+3,F+11..F+17,F+32,128,129,200,257}; i: every frame length up to capacity+6; ii: every read size up to capacity+8; iii: 2 transports x 8 kind triples x 8 allocation scripts; iv: 8 corpus frames x every position x 13 octets x allocation, every pair of positions x 13x13 octets, truncations, short frames, concatenations, 12 TCP prefixes x 3 tails; v: all strings of length 0..3 over 13 octets; vi: source error at every octet x 2 codes x allocation x every single-octet mutation, sink error at every reply octet; vii: 2 transports x 4 undecodable streams after a valid request on one reused RPMaybeFrame x first frame freed/held; i and iii also with a chunk source offering a scratch buffer; ii: 6 request header variants, sizes up to capacity+8 and 8 sizes >= 2^31-1; iii also with a slab allocator; viii: 34 reply kinds (4 replies of regp_recv, 8 of regp_process, 11 memory verdicts x read/write) x 3 transport variants x octet/chunk sink x {EAGAIN, EINTR, short write 1, short write n-1, zero-length write of several octets, EIO} at every sink call x a second answer at every later call x strict/lenient caller x generic/slab allocator; ix: generated streams, frame lengths 2^15-1..2^15+1, 2^16-1..2^16+1, 2^24-1..2^24+1 (3 transport variants), 2^31-1..2^31+1, 2^31+12345, 2^32-1..2^32+1, 2^32+77, 2^32+2^31, 2^32+2^31+1, 2^33+1 (tcp with a 64 KiB scratch buffer) into blocks of 128 and 4096, frames of 2^16-1..2^16+1 octets into blocks with room for exactly them / one to spare, reads of 2^16 -+ 2 units and around the transmit limit from a block of 2^16+56 octets of capacity"
-                         : "block sizes {F+1,F+2,F+11..F+17,F+32,128,129}; i: every frame length up to capacity+6; ii: every read size up to capacity+8; iii: 2 transports x 8 kind triples x 8 allocation scripts; iv: 6 corpus frames x every position x 13 octets x allocation, truncations, short frames, concatenations, 12 TCP prefixes x 3 tails; v: all strings of length 0..3 over 13 octets; vi: source error at every octet x 2 codes x allocation x 4 mutations, sink error at every reply octet; vii: 2 transports x 4 undecodable streams after a valid request on one reused RPMaybeFrame x first frame freed/held; i and iii also with a chunk source offering a scratch buffer; ii: 6 request header variants, sizes up to capacity+8 and 8 sizes >= 2^31-1; iii also with a slab allocator; viii: 34 reply kinds (4 replies of regp_recv, 8 of regp_process, 11 memory verdicts x read/write) x 3 transport variants x octet/chunk sink x {EAGAIN, EINTR, short write 1, short write n-1, zero-length write of several octets, EIO} at every sink call x a second answer at the following call x strict/lenient caller x generic/slab allocator; ix: generated streams, frame lengths 2^15-1..2^15+1, 2^16-1..2^16+1 (3 transport variants), 2^31-1..2^31+1, 2^31+12345, 2^32-1..2^32+1, 2^32+77 (tcp with a 64 KiB scratch buffer) into blocks of 128 and 4096, frames of 2^16-1..2^16+1 octets into blocks with room for exactly them / one to spare, reads of 2^16 -+ 2 units and around the transmit limit from a block of 2^16+56 octets of capacity");
+    mc_finish(true, g_th ? "block sizes {F+1,F+2,F+3,F+11..F+17,F+32,128,129,200,257}; i: every frame length up to (block size - sizeof(RPFrame))+6, judged against the capacity learned per block size from the receiver's own answers; ii: every read size up to (block size - sizeof(RPFrame))+8, judged against the learned capacity, the learned largest read served and the learned reported buffer size; iii: 2 transports x 8 kind triples x 8 allocation scripts; iv: 8 corpus frames x every position x 13 octets x allocation, every pair of positions x 13x13 octets, truncations, short frames, concatenations, 12 TCP prefixes x 3 tails; v: all strings of length 0..3 over 13 octets; vi: source error at every octet x 2 codes x allocation x every single-octet mutation, sink error at every reply octet; vii: 2 transports x 4 undecodable streams after a valid request on one reused RPMaybeFrame x first frame freed/held; i and iii also with a chunk source offering a scratch buffer; ii: 6 request header variants, sizes as stated and 8 sizes >= 2^31-1; iii also with a slab allocator; viii: 34 reply kinds (4 replies of regp_recv, 8 of regp_process, 11 memory verdicts x read/write) x 3 transport variants x octet/chunk sink x {EAGAIN, EINTR, short write 1, short write n-1, zero-length write of several octets, EIO} at every sink call x a second answer at every later call x strict/lenient caller x generic/slab allocator; ix: generated streams, frame lengths 2^15-1..2^15+1, 2^16-1..2^16+1, 2^24-1..2^24+1 (3 transport variants), 2^31-1..2^31+1, 2^31+12345, 2^32-1..2^32+1, 2^32+77, 2^32+2^31, 2^32+2^31+1, 2^33+1 (tcp with a 64 KiB scratch buffer) into blocks of 128 and 4096, frames of 2^16-1..2^16+1 octets into blocks whose learned capacity is exactly that / one more, reads of 2^16 -+ 2 units and around the transmit limit from a block of 2^16+56 octets of capacity"
+                         : "block sizes {F+1,F+2,F+11..F+17,F+32,128,129}; i: every frame length up to (block size - sizeof(RPFrame))+6, judged against the capacity learned per block size from the receiver's own answers; ii: every read size up to (block size - sizeof(RPFrame))+8, judged against the learned capacity, the learned largest read served and the learned reported buffer size; iii: 2 transports x 8 kind triples x 8 allocation scripts; iv: 6 corpus frames x every position x 13 octets x allocation, truncations, short frames, concatenations, 12 TCP prefixes x 3 tails; v: all strings of length 0..3 over 13 octets; vi: source error at every octet x 2 codes x allocation x 4 mutations, sink error at every reply octet; vii: 2 transports x 4 undecodable streams after a valid request on one reused RPMaybeFrame x first frame freed/held; i and iii also with a chunk source offering a scratch buffer; ii: 6 request header variants, sizes as stated and 8 sizes >= 2^31-1; iii also with a slab allocator; viii: 34 reply kinds (4 replies of regp_recv, 8 of regp_process, 11 memory verdicts x read/write) x 3 transport variants x octet/chunk sink x {EAGAIN, EINTR, short write 1, short write n-1, zero-length write of several octets, EIO} at every sink call x a second answer at the following call x strict/lenient caller x generic/slab allocator; ix: generated streams, frame lengths 2^15-1..2^15+1, 2^16-1..2^16+1 (3 transport variants), 2^31-1..2^31+1, 2^31+12345, 2^32-1..2^32+1, 2^32+77 (tcp with a 64 KiB scratch buffer) into blocks of 128 and 4096, frames of 2^16-1..2^16+1 octets into blocks whose learned capacity is exactly that / one more, reads of 2^16 -+ 2 units and around the transmit limit from a block of 2^16+56 octets of capacity");
     return 0;
 }
